@@ -35,7 +35,6 @@ import (
 	"cuelang.org/go/mod/module"
 )
 
-
 const ModPath = "example.com/m"
 
 func Version(v int) module.Version {
